@@ -1,5 +1,14 @@
 /-
-C18 — kernel (DFT) fitting is non-negative and reproduces the isotherm.  (stub; theorems are being added)
+C18 — kernel (DFT) fitting is non-negative and reproduces the isotherm.
+
+Theorems about the hand-written model `PgVerif.Model.Kernel` of the arithmetic of `psd_dft_kernel_fit`
+(characterisation/psd_kernel.py) around the SLSQP minimisation.  Everything is stated over an arbitrary linearly ordered
+field `α` (so it holds at ℝ and at ℚ, where the harness replays the model against the real function).
+
+Shapes: `K` has one row per pore width, every row has the length `m` of the pressure list, `x` has one entry per pore
+width.  The shape hypotheses are always explicit: `K ≠ []`, `K.length = x.length`, `∀ row ∈ K, row.length = m`.
+"Strictly increasing positive widths" (`0 < w₀ < w₁ < …`) is stated as `∀ w ∈ widths, 0 < w` and
+`widths.Pairwise (· < ·)`.
 -/
 import PgVerif.Model.Kernel
 import Mathlib.Tactic
@@ -7,13 +16,68 @@ import Mathlib.Tactic
 namespace PgVerif.Props.C18
 open PgVerif.Model.Kernel
 
-/-- the objective is a sum of squares: it is never negative -/
-theorem sumSquares_nonneg (K : List (List ℝ)) (l x : List ℝ) : 0 ≤ sumSquares K l x := by
-  unfold sumSquares
-  apply List.sum_nonneg
-  intro r hr
-  simp only [List.mem_map] at hr
-  obtain ⟨a, _, rfl⟩ := hr
-  exact mul_self_nonneg a
+variable {α : Type} [Field α] [LinearOrder α] [IsStrictOrderedRing α]
+
+/-! ### helper facts -/
+
+/-- induction over well-shaped (kernel, weights) pairs -/
+lemma shaped_induction {β : Type} [Field β] {P : List (List β) → List β → Prop}
+    (h1 : ∀ row x, P [row] [x])
+    (h2 : ∀ row r2 rows x xs, (r2 :: rows).length = xs.length → P (r2 :: rows) xs →
+      P (row :: r2 :: rows) (x :: xs)) :
+    ∀ K x, K ≠ [] → K.length = x.length → P K x := by
+  intro K
+  induction K with
+  | nil => intro x h; exact absurd rfl h
+  | cons row rows ih =>
+    intro x _ hlen
+    cases x with
+    | nil => simp at hlen
+    | cons a xs =>
+      cases rows with
+      | nil =>
+        cases xs with
+        | nil => exact h1 row a
+        | cons b ys => simp at hlen
+      | cons r2 rows' =>
+        have hl : (r2 :: rows').length = xs.length := by simpa using hlen
+        exact h2 row r2 rows' a xs hl (ih xs (by simp) hl)
+
+lemma ext_of_length {β : Type} {l1 l2 : List β} {m : ℕ} (h1 : l1.length = m) (h2 : l2.length = m)
+    (h : ∀ j < m, l1[j]? = l2[j]?) : l1 = l2 := by
+  apply List.ext_getElem?
+  intro j
+  by_cases hj : j < m
+  · exact h j hj
+  · have hj' : m ≤ j := Nat.le_of_not_lt hj
+    rw [List.getElem?_eq_none (by omega), List.getElem?_eq_none (by omega)]
+
+/-! ### 1–2. the kernel-weighted sum -/
+
+/-- recursion equation, one pore width -/
+theorem kernelLoading_singleton (row : List α) (x : α) :
+    kernelLoading [row] [x] = row.map (· * x) := by
+  simp [kernelLoading]
+
+/-- recursion equation, at least two pore widths -/
+theorem kernelLoading_cons (row r2 : List α) (rows : List (List α)) (x : α) (xs : List α) :
+    kernelLoading (row :: r2 :: rows) (x :: xs)
+      = List.zipWith (· + ·) (row.map (· * x)) (kernelLoading (r2 :: rows) xs) := by
+  simp [kernelLoading]
+
+/-- the fitted isotherm has one value per pressure point -/
+theorem kernelLoading_length (m : ℕ) (K : List (List α)) (x : List α)
+    (hK : K ≠ []) (hlen : K.length = x.length) (hrows : ∀ row ∈ K, row.length = m) :
+    (kernelLoading K x).length = m := by
+  revert hrows
+  refine shaped_induction (P := fun K x => (∀ row ∈ K, row.length = m) → (kernelLoading K x).length = m)
+    ?_ ?_ K x hK hlen
+  · intro row a hrows
+    simp [kernelLoading_singleton, hrows row (by simp)]
+  · intro row r2 rows a xs _ ih hrows
+    rw [kernelLoading_cons, List.length_zipWith, List.length_map, hrows row (by simp),
+      ih (fun r hr => hrows r (List.mem_cons_of_mem _ hr))]
+    simp
+
 
 end PgVerif.Props.C18
